@@ -1266,6 +1266,8 @@ func runC16(args []string) error {
 		"cc":   g.ccCases(200 * s),
 		"tg":   g.tgCases(250 * s),
 		"ji":   g.jiCases(150 * s),
+		"sm":   g.smCases(200 * s),
+		"pw":   g.pwCases(200 * s),
 		"dist": g.dist,
 		"keys": map[string]string{"error": hx(requestreply.ErrorMetadataKey), "has_error": hx(requestreply.HasErrorMetadataKey)},
 	}
